@@ -523,6 +523,7 @@ pub fn all() -> Vec<(&'static str, &'static str, fn() -> R)> {
         ("C11", "stale_handles", c11_stale_handles),
         ("C11", "set_len_huge", c11_set_len_huge),
         ("C11", "crosslinked", c11_crosslinked),
+        ("C11", "stale_clean_reader", c11_stale_clean_reader),
         ("C09", "length_units", c09_length_units),
         ("C12", "failed_refill", c12_failed_refill),
         ("C13", "flush_retry", c13_flush_retry),
@@ -821,4 +822,34 @@ pub fn c11_crosslinked() -> R {
     } else {
         Err(failures.join("; "))
     }
+}
+
+/// Two handles on one stream; the second one is clean and its cached length is stale after the
+/// first one grew the stream (model scenario S705b, found by proof).
+pub fn c11_stale_clean_reader() -> R {
+    for v in [Version::V3, Version::V4] {
+        for (first, more, rd) in [(10usize, 100usize, 50usize), (100, 5000, 3000), (4096, 4096, 5000), (1, 1, 2)] {
+            let (_, mut c) = fresh(v);
+            let mut h0 = c.create_stream("/s").unwrap();
+            h0.write_all(&vec![1u8; first]).unwrap();
+            h0.flush().unwrap();
+            let mut h1 = c.open_stream("/s").unwrap();
+            h0.write_all(&vec![2u8; more]).unwrap();
+            h0.flush().unwrap();
+            let what = format!("{:?} first {} more {} read {}", v, first, more, rd);
+            no_panic(&what, || {
+                let mut buf = vec![0u8; rd];
+                let n = h1.read(&mut buf).unwrap_or(0);
+                let pos = h1.stream_position().unwrap_or(0);
+                let len = h1.len();
+                let _ = h1.seek(SeekFrom::Current(0));
+                let _ = h1.seek(SeekFrom::End(0));
+                let _ = h1.read(&mut buf);
+                let _ = h1.write_all(&[9u8; 3]);
+                let _ = h1.flush();
+                (n, pos, len)
+            })?;
+        }
+    }
+    Ok(())
 }
